@@ -67,29 +67,53 @@ theorem explicitlyForDeletion_iff (h : Handler) : explicitlyForDeletion h = true
   | none => simp
   | some ops => cases ops <;> simp [List.all_eq_true]
 
-/-- the gate, declaratively: type hint, webhook-id hint, DELETE exclusion of mutating handlers
+/-- "the handler matches the operation": the request's operation is admitted by the operations the
+    handler declared, read as the rule list kopf also sends to the apiserver for the handler's own
+    webhook (`managedRuleOps`: the declared collection, or `["*"]` when none/empty; `"*"` admits every
+    operation). A review without an operation (malformed) has nothing to match against. -/
+def OpMatches (h : Handler) (c : Cause) : Prop :=
+  "*" ∈ managedRuleOps h ∨ c.operation = none ∨ ∃ op, c.operation = some op ∧ op ∈ managedRuleOps h
+
+theorem matchingOperation_iff (h : Handler) (c : Cause) : matchingOperation h c = true ↔ OpMatches h c := by
+  rcases h with ⟨hid, hr, hops, hsub⟩
+  rcases c with ⟨cr, cw, cop, csub⟩
+  unfold OpMatches
+  cases hops with
+  | none => simp [matchingOperation, opsTruthy, managedRuleOps]
+  | some ops =>
+    cases ops with
+    | nil => simp [matchingOperation, opsTruthy, managedRuleOps]
+    | cons o os =>
+      cases cop with
+      | none => simp [matchingOperation, opsTruthy, managedRuleOps]
+      | some op =>
+        simp [matchingOperation, opsTruthy, opsContains, opInOps, managedRuleOps]
+
+/-- the gate, declaratively and in full (code after the repair cc4195a): type hint, webhook-id hint,
+    the request's operation among the handler's declared ones, DELETE exclusion of mutating handlers
     unless opted in, subresource ('*' or equal, incl. None = None), remaining filters. -/
 theorem gate_spec (h : Handler) (c : Cause) (m : Bool) :
     gate h c m = true ↔
       (c.reason = none ∨ c.reason = some h.reason) ∧
       (c.webhook = none ∨ c.webhook = some h.id) ∧
+      OpMatches h c ∧
       (h.reason = .mutating → c.operation = some "DELETE" → OnlyDelete h) ∧
       (h.subresource = some "*" ∨ h.subresource = c.subresource) ∧
       m = true := by
-  rw [← explicitlyForDeletion_iff]
+  rw [← explicitlyForDeletion_iff, ← matchingOperation_iff]
   rcases h with ⟨hid, hr, hops, hsub⟩
   rcases c with ⟨cr, cw, cop, csub⟩
   simp only [gate, matchesSubresource, Bool.and_eq_true, Bool.or_eq_true, beq_iff_eq, bne_iff_ne, ne_eq]
   constructor
-  · rintro ⟨⟨⟨h1, h2⟩, h3⟩, h4, h5⟩
-    refine ⟨h1, h2, ?_, h4, h5⟩
+  · rintro ⟨⟨⟨⟨h1, h2⟩, h0⟩, h3⟩, h4, h5⟩
+    refine ⟨h1, h2, h0, ?_, h4, h5⟩
     intro hm hd
     rcases h3 with (h3 | h3) | h3
     · exact absurd hm h3
     · exact absurd hd h3
     · exact h3
-  · rintro ⟨h1, h2, h3, h4, h5⟩
-    refine ⟨⟨⟨h1, h2⟩, ?_⟩, h4, h5⟩
+  · rintro ⟨h1, h2, h0, h3, h4, h5⟩
+    refine ⟨⟨⟨⟨h1, h2⟩, h0⟩, ?_⟩, h4, h5⟩
     by_cases hm : hr = .mutating
     · by_cases hd : cop = some "DELETE"
       · exact Or.inr (h3 hm hd)
@@ -107,36 +131,31 @@ theorem select_spec (hs : List (Handler × Bool)) (c : Cause) (h : Handler) :
     · rintro ⟨m, hmem, hg⟩; exact ⟨(h, m), ⟨hmem, hg⟩, rfl⟩
   · exact List.Sublist.map _ List.filter_sublist
 
-/-- The property's "handlers matching the operation" is NOT what the gate does: the handler's
-    declared `operations` are never compared with the request's operation (witness replayed on the
-    real code: corpus/C18/C18-F3-operations-ignored.json). -/
-theorem gate_ignores_operations_witness :
-    ∃ (h : Handler) (c : Cause), h.operations = some ["CREATE"] ∧ c.operation = some "UPDATE" ∧
-      gate h c true = true :=
-  ⟨⟨"h", .validating, some ["CREATE"], none⟩, ⟨none, none, some "UPDATE", none⟩, rfl, rfl, by decide⟩
+/-- "Only handlers matching the … operation … run": a selected handler's declared operations admit
+    the request's operation (before cc4195a this was false: finding C18-F3, now a regression case in
+    corpus/C18/C18-F3-operations-ignored.json). The in-process test is the same as the rule kopf
+    sends to the apiserver (`managedRuleOps`, tied to `build_webhooks`). -/
+theorem gate_enforces_operations (hs : List (Handler × Bool)) (c : Cause) (h : Handler)
+    (hsel : h ∈ select hs c) : OpMatches h c := by
+  obtain ⟨m, _, hg⟩ := ((select_spec hs c h).1).1 hsel
+  exact ((gate_spec h c m).1 hg).2.2.1
 
-/-- "the handler matches the operation": the request's operation is admitted by the operations the
-    handler declared, read as the rule list kopf generates for the handler's own webhook
-    (`managedRuleOps`: the declared collection, or `["*"]` when none/empty). -/
-def OpMatches (h : Handler) (c : Cause) : Prop :=
-  "*" ∈ managedRuleOps h ∨ ∃ op, c.operation = some op ∧ op ∈ managedRuleOps h
-
-/-- Full clause (FALSE of the code, `gate_ignores_operations_witness`, open finding C18-F3):
-      `gate h c m = true → OpMatches h c`.
-    Proved under the exact guard: the handler declared no operations, or the review carries a webhook
-    id (then only the handler with that id passes the gate) and the sender honours that webhook's
-    rules — which is what an apiserver does with kopf's managed configuration, where each handler's
-    webhook has its own URL ending in the handler id and `rules[].operations = managedRuleOps h`. -/
-theorem gate_spec_partial (h : Handler) (c : Cause) (m : Bool) (hg : gate h c m = true)
-    (guard : h.operations = none ∨
-             (c.webhook ≠ none ∧ (c.webhook = some h.id → OpMatches h c))) :
-    OpMatches h c := by
-  rcases guard with hn | ⟨hw, hr⟩
-  · left; simp [managedRuleOps, hn]
-  · have := ((gate_spec h c m).1 hg).2.1
-    rcases this with h0 | h1
-    · exact absurd h0 hw
-    · exact hr h1
+/-- in particular: declared `["CREATE"]`, request `UPDATE` ⇒ not selected, with or without a hint -/
+theorem restricted_handler_skipped (h : Handler) (c : Cause) (m : Bool) (ops : List String) (op : String)
+    (ho : h.operations = some ops) (hne : ops ≠ []) (hstar : "*" ∉ ops) (hop : c.operation = some op)
+    (hnot : op ∉ ops) : gate h c m = false := by
+  cases hg : gate h c m with
+  | false => rfl
+  | true =>
+    have := ((gate_spec h c m).1 hg).2.2.1
+    have hr : managedRuleOps h = ops := by
+      unfold managedRuleOps; rw [ho]; cases ops with
+      | nil => exact absurd rfl hne
+      | cons _ _ => rfl
+    rcases this with h1 | h1 | ⟨op', h1, h2⟩
+    · rw [hr] at h1; exact absurd h1 hstar
+    · rw [hop] at h1; cases h1
+    · rw [hop] at h1; cases h1; rw [hr] at h2; exact absurd h2 hnot
 
 /-- with a webhook-id hint, at most the handler carrying that id runs -/
 theorem hinted_only_that_handler (hs : List (Handler × Bool)) (c : Cause) (id : String)
@@ -357,8 +376,12 @@ example : ∃ r, appliedObject (fun a ops => some (ops.getLastD a))
     ⟨none, none, some "UPDATE", none⟩ (fun _ => ⟨[], some ⟨.admission, some 403, "no", "A('no')"⟩⟩)
     _ _ rfl [("spec", .obj [("a", .num 2)])] [] _ rfl rfl
 
--- `gate_spec_partial`: a hinted review routed by the handler's own rule
-example : OpMatches ⟨"h", .validating, some ["CREATE", "UPDATE"], none⟩ ⟨none, some "h", some "UPDATE", none⟩ :=
-  gate_spec_partial _ _ true (by decide) (Or.inr ⟨by simp, fun _ => Or.inr ⟨"UPDATE", rfl, by simp [managedRuleOps]⟩⟩)
+-- the former C18-F3 witness is now rejected by the gate; a matching operation, `*`, no declared
+-- operations and an absent operation pass:
+example : gate ⟨"h", .validating, some ["CREATE"], none⟩ ⟨none, none, some "UPDATE", none⟩ true = false := by decide
+example : gate ⟨"h", .validating, some ["CREATE", "UPDATE"], none⟩ ⟨none, none, some "UPDATE", none⟩ true = true := by decide
+example : gate ⟨"h", .validating, some ["*"], none⟩ ⟨none, none, some "CONNECT", none⟩ true = true := by decide
+example : gate ⟨"h", .validating, some ["CREATE"], none⟩ ⟨none, none, none, none⟩ true = true := by decide
+example : gate ⟨"h", .validating, some [], none⟩ ⟨none, none, some "UPDATE", none⟩ true = true := by decide
 
 end Kopf.C18
